@@ -10,7 +10,8 @@
 (*   (ObjState for Link / [Link] / [Elev] / [Heading] / [SpeedLimit] /      *)
 (*   [CatPowerLimit] / SpeedSet / SpeedParam, in evaluation order, with the *)
 (*   early exits), Variant = "pinned" reproducing the tree before the two   *)
-(*   repairs (inverted catenary overlap test, unchecked self[idx]).         *)
+(*   repairs (inverted catenary overlap test, unchecked self[idx]), "skip1" *)
+(*   the first form of the range check that left out entry 0.               *)
 (*   The transition system enumerates (valid base network) x (one fault).   *)
 (*                                                                          *)
 (* Abstract network = sequence of link records, net[1] is entry 0 of the    *)
@@ -27,7 +28,8 @@
 (***************************************************************************)
 EXTENDS Integers, Sequences, FiniteSets, TLC
 
-CONSTANTS Variant        \* "fixed" = current tree, "pinned" = before the C16 repairs
+CONSTANTS Variant        \* "fixed" = current tree; "pinned" = before the C16 repairs (F-C16-1/2);
+                         \* "skip1" = range check that skips entry 0 (F-C16-4, repaired by e2a096d)
 
 INF == 1073741824        \* 2^30, shared with the harness (avh::common::INF)
 NAN == 1073741825
@@ -194,7 +196,7 @@ ImplOutcome(net) ==
   IF Len(net) < 2 THEN "rejected"
   ELSE IF ~(net[1].cur = 0 /\ ImplLinkFake(net[1])) THEN "rejected"
   ELSE IF \E p \in 1..(Len(net)-1) : ~(At(net, p).cur # 0 /\ ImplLinkReal(At(net, p))) THEN "rejected"
-  ELSE IF Variant = "fixed" /\ \E p \in 1..(Len(net)-1) :
+  ELSE IF Variant # "pinned" /\ \E p \in (IF Variant = "skip1" THEN 1 ELSE 0)..(Len(net)-1) :   \* `for link in self.iter()`
             \E v \in Refs(At(net, p)) \cup Range(At(net, p).lock) : OutOfNet(net, v) THEN "rejected"
   ELSE IF \E p \in 1..(Len(net)-1) : \E v \in PinnedIndexed(At(net, p)) : OutOfNet(net, v) THEN "panic"
   ELSE IF \A p \in 1..(Len(net)-1) : ImplCross(net, p) THEN "accepted"
@@ -478,9 +480,6 @@ BenignValid  == (Single /\ faults[1].class = "benign") => Valid(net)           \
 NonFiniteTable == (Single /\ faults[1].class = "nonfinite") =>
                      (Valid(net) <=> <<faults[1].kind, faults[1].b>> \in NonFiniteAllowed)
 (* Level B => Level A: the validator as transcribed accepts exactly the valid descriptions and never aborts *)
-(* Named deviation (finding F-C16-4): the range check of the repair iterates over the real entries only, *)
-(* so an out-of-range lockout reference held by entry 0 goes unnoticed.                                  *)
-DummyLockGap(n) == Len(n) >= 2 /\ \E v \in Range(n[1].lock) : OutOfNet(n, v)
-Conforms   == ~DummyLockGap(net) => ((ImplOutcome(net) = "accepted") <=> Valid(net))
+Conforms   == (ImplOutcome(net) = "accepted") <=> Valid(net)
 ImplNoPanic == ImplOutcome(net) # "panic"
 =============================================================================
